@@ -237,6 +237,17 @@ def generate(sc, lox, mod, cases, timeout=120, prefix="l"):
         d = os.path.join(mod, pkg)
         os.makedirs(d, exist_ok=True)
         main, peek, nopeek = render_go(pkg)
+        if case.get("pre_lox_files"):
+            # the directory's history: an earlier edit of the same project was generated here first
+            for fn, txt in case["pre_lox_files"].items():
+                open(os.path.join(d, fn), "w").write(txt)
+            open(os.path.join(d, "lex.go"), "w").write(case.get("go_text", main).replace("PKGNAME", pkg))
+            try:
+                subprocess.run([lox, d], cwd=mod, env=GOENV, stdout=subprocess.PIPE, stderr=subprocess.PIPE, timeout=timeout)
+            except subprocess.TimeoutExpired:
+                pass
+            for fn in case["pre_lox_files"]:
+                os.remove(os.path.join(d, fn))
         if case.get("lox_files"):
             for fn, txt in case["lox_files"].items():
                 open(os.path.join(d, fn), "w").write(txt)
